@@ -883,7 +883,34 @@ fn cap(x: u128) -> u64 {
     x.clamp(2, 1 << 50) as u64
 }
 
+/// Thousands of distinct senders inside one replenish period: every one of them is within its quota.
+fn gen_many_keys_case(rng: &mut Rng, stats: &mut Stats) -> Vec<String> {
+    stats.bump("gen.lim.many-keys");
+    let n = rng.range(1, 8);
+    let period = 60 * NS;
+    let mut ops = vec![format!("lnew {} {}", n, period)];
+    let keys = rng.range(4200, 5200);
+    let mut now: u128 = rng.below(1 << 30) as u128;
+    for k in 0..keys {
+        now += rng.below(1000) as u128;
+        ops.push(format!("la {} {} 1", now, 1000 + k));
+        if rng.chance(1, 400) {
+            ops.push(format!("lp {}", now));
+        }
+    }
+    // the late-comers again, and a burst of one of them up to its quota
+    let k = 1000 + keys - 1;
+    for _ in 0..n + 1 {
+        now += rng.below(1000) as u128;
+        ops.push(format!("la {} {} 1", now, k));
+    }
+    ops
+}
+
 fn gen_limiter_case(rng: &mut Rng, thorough: bool, stats: &mut Stats) -> Vec<String> {
+    if rng.chance(1, 50) {
+        return gen_many_keys_case(rng, stats);
+    }
     let mut ops = Vec::new();
     // ---- quota
     let n: u64 = match rng.below(12) {
